@@ -339,6 +339,13 @@ var boundary = [][]string{
 
 func Run(c *hx.Ctx) {
 	// replay of explicit cases: mosnh C09 <kind> <maxConn> <maxReq> <ops>
+	if len(c.Args) == 4 && c.Args[0] == "mux" {
+		mc, _ := strconv.Atoi(c.Args[1])
+		mr, _ := strconv.Atoi(c.Args[2])
+		ops, obs, w := muxRunOps(c, uint32(mc), uint32(mr), scripted(strings.Split(c.Args[3], ",")))
+		muxEmit(c, uint32(mc), uint32(mr), ops, obs, w)
+		return
+	}
 	if len(c.Args) == 4 {
 		mc, _ := strconv.Atoi(c.Args[1])
 		mr, _ := strconv.Atoi(c.Args[2])
